@@ -453,6 +453,12 @@ def retain (ord : List Nat) (t : Table) (body : Body) (failAt : Option Nat) : Ta
     match run ord (patch t fs) body with
     | (t', o, log) => (restore t' fs, o, log)
 
+/-- a history of contexts entered one after the other on the same table (object reuse: the decorator form
+`@retain_ltype()` / a `jacrev` wrapper called again and again, each call returning or raising anywhere) -/
+def history (ord : List Nat) : Table → List (Body × Option Nat) → Table
+  | t, [] => t
+  | t, (b, fa) :: rest => history ord (retain ord t b fa).1 rest
+
 /-- every call of the body goes to one of the patched slots -/
 def Body.callsIn (ord : List Nat) : Body → Prop
   | .ret => True
